@@ -7,6 +7,7 @@ open Goat
 theorem flag_resetViaWriter : Generated.cfg.resetViaWriter = true := by decide
 theorem flag_streamOnceGuards : Generated.cfg.streamOnceGuards = true := by decide
 theorem flag_finishOrder : Generated.cfg.finishOrder = true := by decide
+theorem flag_sendTeardownNoRst : Generated.cfg.sendTeardownNoRst = true := by decide
 theorem reset_type : "RST_STREAM" ∈ Generated.resetTypes := by decide
 theorem sk_setHeader : Generated.sk_server_stream_serverStream_setHeader = Expected.sk_server_stream_serverStream_setHeader := by decide
 theorem sk_SendMsg : Generated.sk_server_stream_serverStream_SendMsg = Expected.sk_server_stream_serverStream_SendMsg := by decide
